@@ -22,6 +22,7 @@ def plan(tier):
     sh = [{'kind': 'range', 'lo': -hi + i * step, 'hi': min(hi, -hi + (i + 1) * step)} for i in range(8)]
     n = 4000 if tier == 'quick' else 100000
     sh += [{'kind': 'big', 'n': n}, {'kind': 'pairs', 'n': n}, {'kind': 'mono', 'n': n}]
+    sh += [{'kind': 'concurrent', 'shard': i, 'of': 2} for i in range(2)]
     return sh
 
 
@@ -78,9 +79,29 @@ NEAR = st.builds(lambda t, d, s: s * (t + d), st.sampled_from(M.THRESHOLDS), st.
                  st.sampled_from([1, -1]))
 
 
+def _p_imps(B):
+    import importlib
+    sc = importlib.import_module('bridge_env.score')
+    return [lambda: [sc.point_difference_to_imps(d) for d in (-15, 20, 4000, -3995)] + [sc.score_to_imp(620, 620)],
+            lambda: [sc.point_difference_to_imps(d) for d in (15, -20, 10 ** 30, 745)] + [sc.score_to_imp(5200, -4600)]]
+
+
+def concurrent_programs():
+    from vf.props import _concurrent as CC
+    return {'IMP conversions': (_p_imps, CC.same_as_alone, ('/bridge_env/score.py',))}
+
+
 def run_shard(spec, seed, tier, stats):
     fails = {}
     k = spec['kind']
+    if k == 'concurrent':
+        from vf.props import _concurrent as CC
+        try:
+            for name, (prog, oracle, tr) in concurrent_programs().items():
+                CC.explore(name, prog, oracle, stats, bound=1, orders=(0, 1), trace=tr, shard=spec['shard'], of=spec['of'])
+        except Violation as v:
+            return [v]
+        return []
     if k == 'range':
         from bridge_env.score import point_difference_to_imps as f
         prev = None
@@ -117,6 +138,9 @@ def run_shard(spec, seed, tier, stats):
 
 def replay(rec):
     c = rec['case']
+    if 'concurrent_program' in c:
+        from vf.props import _concurrent as CC
+        return CC.replay(rec, concurrent_programs())
     try:
         if 'diff' in c:
             _one(c['diff'])
